@@ -10,8 +10,13 @@ Line-protocol driver for C16 (model side).  Ops (one scenario per case):
   candidates <mine> <members>             → `chosen <ids>`     (all sync candidates)
   targets <mine> <local|relay> <members>  → `ring0=<ids> sent=<ids>`
 
-members: `id:cluster:ring` joined by `,` (`-` = empty table); id = 0..11 or `s` (the node itself);
-cluster ≤ 65535 (u16 in the code); ring = `-` | 0..5.  An address is identified with its member id.
+members: announcements `id:cluster:ring[:ts[:addr]]` joined by `,` (`-` = empty table), applied in list
+order; id = 0..11 or `s` (the node itself); cluster ≤ 65535 (u16 in the code); ring = `-` | 0..5;
+ts = 1..9 (default 1); addr = 0..11 (default: the id; not allowed for `s`).  The same id may be announced
+several times: the table holds the FINAL identity of each actor — a strictly newer ts replaces address and
+cluster, an older or equal one is ignored (`Members::add_member`, the rule C18 is about); the ring is the
+one of the winning announcement.  An address belongs to one actor only (`bad-op` otherwise).  Printed sets
+are addresses (= ids unless an announcement moved the member).
 -/
 namespace Driver.C16
 open Corro.ClusterGate
@@ -27,22 +32,43 @@ def cluster? (s : String) : Option Nat := do
 def declared? (s : String) : Option (Option Nat) :=
   if s = "absent" then some none else (cluster? s).map some
 
-def member? (s : String) : Option Member :=
-  match s.splitOn ":" with
-  | [i, c, r] => do
-    let id ← if i = "s" then some selfId else (i.toNat?).bind (fun n => if n ≤ 11 then some n else none)
-    let c ← cluster? c
-    let ring ← if r = "-" then some none else (r.toNat?).bind (fun n => if n ≤ 5 then some (some n) else none)
-    pure ⟨id, id, c, ring⟩
+def member? (s : String) : Option (Member × Nat) := do
+  let parts := s.splitOn ":"
+  let (i, c, r, rest) ← match parts with
+    | i :: c :: r :: rest => some (i, c, r, rest)
+    | _ => none
+  let id ← if i = "s" then some selfId else (i.toNat?).bind (fun n => if n ≤ 11 then some n else none)
+  let c ← cluster? c
+  let ring ← if r = "-" then some none else (r.toNat?).bind (fun n => if n ≤ 5 then some (some n) else none)
+  let ts? (t : String) : Option Nat := (t.toNat?).bind (fun n => if 1 ≤ n ∧ n ≤ 9 then some n else none)
+  match rest with
+  | [] => pure (⟨id, id, c, ring⟩, 1)
+  | [t] => do let ts ← ts? t; pure (⟨id, id, c, ring⟩, ts)
+  | [t, a] => do
+    let ts ← ts? t
+    let addr ← (a.toNat?).bind (fun n => if n ≤ 11 then some n else none)
+    if id = selfId then none else pure (⟨id, addr, c, ring⟩, ts)
   | _ => none
 
-def nodup : List Nat → Bool
+/-- an address is used by one actor only -/
+def addrsOwned : List Member → Bool
   | [] => true
-  | x :: r => !r.contains x && nodup r
+  | x :: r => r.all (fun y => y.actor == x.actor || y.addr != x.addr) && addrsOwned r
+
+/-- `Members::add_member` as far as this property needs it: first announcement inserts, a strictly newer
+ts replaces the identity, anything else is ignored. -/
+def upsert (acc : List (Member × Nat)) (m : Member) (ts : Nat) : List (Member × Nat) :=
+  match acc with
+  | [] => [(m, ts)]
+  | (x, xts) :: r =>
+    if x.actor = m.actor then (if ts > xts then (m, ts) :: r else (x, xts) :: r)
+    else (x, xts) :: upsert r m ts
 
 def members? (s : String) : Option (List Member) := do
-  let ms ← (splitList s).mapM member?
-  if nodup (ms.map (·.actor)) then some ms else none
+  let anns ← (splitList s).mapM member?
+  if addrsOwned (anns.map (·.1)) then
+    some ((anns.foldl (fun acc a => upsert acc a.1 a.2) []).map (·.1))
+  else none
 
 def insertSorted (x : Nat) : List Nat → List Nat
   | [] => [x]
@@ -81,7 +107,7 @@ def run (toks : List String) : Option String :=
     let mine ← cluster? mine
     let ms ← members? ms
     if eligible mine ms > maxCandidates then pure "err too-many-eligible" else
-    pure ("chosen " ++ showIds ((syncCandidates selfId mine ms).map (·.actor)))
+    pure ("chosen " ++ showIds ((syncCandidates selfId mine ms).map (·.addr)))
   | ["targets", mine, mode, ms] => do
     let mine ← cluster? mine
     let isLocal ← if mode = "local" then some true else if mode = "relay" then some false else none
